@@ -58,6 +58,19 @@ def plan(tier, seed):
                                                              "both", "sigma-arr"]),
               rho=pick(rng, [1, 1, 0.3, 3.0]), x0=bool(rng.random() < 0.4),
               acc=bool(rng.random() < 0.7), ascale=pick(rng, [1, 1, 1, 1e-8, 1e-4, 1e4]))
+    # operators for which the constant vector is an exact eigenvector of A^H A (+ G^H G) for
+    # a non-dominant eigenvalue (identity, circular convolution, with / without a
+    # finite-difference G), solved with defaulted step sizes
+    rng = P.rng("lls-struct")
+    for i in range(24 if quick else 300):
+        G = pick(rng, ["none", "fd", "fd"])
+        proxg = pick(rng, ["l1", "l2"]) if G == "fd" else pick(rng, ["none", "l1", "l2"])
+        P.add("lls-struct", n=int(rng.integers(3, 9)), A=pick(rng, ["identity", "circulant"]),
+              cplx=True, lam=pick(rng, [0.0, "pos"]), z=False, proxg=proxg, G=G,
+              solver=pick(rng, [None, "GradientMethod", "PrimalDualHybridGradient"])
+              if G == "none" else pick(rng, [None, "PrimalDualHybridGradient"]),
+              P=False, alpha=False, tau="none", rho=1, x0=False, acc=bool(rng.random() < 0.5),
+              ascale=1)
     # operator-scale sweep on pure least squares (every solver, with and without lamda / z):
     # eigenvalues of A^H A from 1e-16 to 1e+8
     rng = P.rng("lls-scale")
@@ -117,6 +130,17 @@ def run_case(case):
     elif kindA == "fft":
         xshape = [n]
         A = L.FFT(xshape)                 # A.N is the Identity shortcut
+        cplx = True
+        dt = np.complex128
+    elif kindA == "circulant":
+        # circular convolution F^H D F: the constant vector is an exact eigenvector of A^H A
+        # (for a non-dominant eigenvalue) - step sizes estimated from a structured start
+        # vector would be wrong
+        xshape = [n]
+        dvals = 0.3 + rng.random(n)
+        dvals[0] = 0.3
+        A = L.IFFT(xshape, center=False) * L.Multiply(xshape, dvals.astype(np.complex128)) * \
+            L.FFT(xshape, center=False)
         cplx = True
         dt = np.complex128
     else:
